@@ -66,15 +66,21 @@ def c02(tier, seed):
     mc(c, ["VQ_n2_direct_ev", "VQ_n2_indirect_ev"] + (["VQ_n2_direct", "VQ_n2_indirect"] if tier == "thorough" else []), tier,
        negative=["VQ_bug_idx_before_slot"])
     vq_family(c, tier, seed + 101, ["random"])
+    # the same store discipline for every queue of every driver (usage scenarios)
+    usage_queues(c, tier, seed)
     return c.finish()
 
 
 def c03(tier, seed):
     c = Check("C03", tier, seed)
-    c.rule = "MC: all completion permutations and polls with right/wrong tokens, indices modulo 4/8 wrap many times; traces: random interleavings plus wrap runs (>65536 submissions on one queue so the real 16-bit indices wrap)"
+    c.rule = "MC: all completion permutations and polls with right/wrong tokens, indices modulo 4/8 wrap many times; traces: random interleavings plus wrap runs (>65536 submissions on one queue so the real 16-bit indices wrap); every driver's completion polls in the usage scenarios of the device families"
     c.assumptions = VQ_ASSUME
     mc(c, ["VQ_n2_direct", "VQ_n2_indirect_ev"], tier)
     vq_family(c, tier, seed + 202, ["random", "wrap"])
+    # "a poll that finds nothing ready or a non-matching token changes nothing" also holds one level
+    # up: the drivers' completion polls (block, sound non-blocking transfers, network, owned queues)
+    # in the usage scenarios, device level and queue level
+    usage_queues(c, tier, seed, device_level=True)
     return c.finish()
 
 
@@ -203,6 +209,9 @@ def c07(tier, seed):
     # of every size on the real PCI and MMIO transports, accesses around their ends (the bounds
     # grids of C13) - an access outside every advertised window is a BarStray / MmioStray event
     pci_family(c, "ops", "PciTrace", "PciTrace.cfg", seed, tier, max_events=1500)
+    # ... and capability lists / BAR tables of every shape through PciTransport::new (a window may
+    # only be taken from an allocated memory BAR, whatever the function reports)
+    pci_family(c, "new", "PciTrace", "PciTrace.cfg", seed, tier)
     profiles = ["dev", "release"] if tier == "thorough" else ["dev"]
     for prof in profiles:
         out = os.path.join(WORK, c.pid, f"adv-{prof}.ndjson")
